@@ -8,6 +8,7 @@ current tree and evaluates every property's rules on the result. A rule that ala
   blocks  the basic blocks of every body are renumbered by a random permutation that keeps the entry block (rules must reason by
           dominance / reachability, never by block order)
   locals  the locals beyond the parameters are renumbered by a random permutation (rules must not depend on local indices)
+  mirror  every ordering comparison is written the other way round (`a < b` becomes `b > a`)
 
 Prints one line per property; exit 0 iff no rule alarms."""
 import argparse
@@ -122,13 +123,45 @@ def do_locals(facts, rnd):
             del b._vt
 
 
+def do_mirror(facts):
+    """every ordering comparison `a < b` is rewritten as `b > a` (operators and PartialOrd calls alike)"""
+    import re
+    mop = {"Lt": "Gt", "Le": "Ge", "Gt": "Lt", "Ge": "Le"}
+    mcall = {"lt": "gt", "le": "ge", "gt": "lt", "ge": "le"}
+    for p, b in facts.bodies.items():
+        if not local_crate(p):
+            continue
+        for blk in b.j["blocks"]:
+            for st in blk["st"]:
+                if st["k"] == "a" and st["r"].get("k") == "bin" and st["r"].get("op") in mop:
+                    r = st["r"]
+                    r["op"] = mop[r["op"]]
+                    r["a"], r["b"] = r["b"], r["a"]
+            t = blk["term"]
+            if t["k"] == "call" and t.get("fn") and len(t.get("args", ())) == 2:
+                names = [t["fn"].get(k) or "" for k in ("decl", "inst")]
+                m = re.search(r"(PartialOrd|Ord)(<.*>)?>?::(lt|le|gt|ge)$|cmp::impls::.*::(lt|le|gt|ge)$", names[0]) or \
+                    re.search(r"(PartialOrd|Ord)(<.*>)?>?::(lt|le|gt|ge)$|cmp::impls::.*::(lt|le|gt|ge)$", names[1])
+                if m:
+                    for k in ("decl", "inst", "decl_full", "inst_full"):
+                        v = t["fn"].get(k)
+                        if v:
+                            mm = re.search(r"::(lt|le|gt|ge)$", v)
+                            if mm:
+                                t["fn"][k] = v[:mm.start(1)] + mcall[mm.group(1)]
+                    t["args"] = [t["args"][1], t["args"][0]]
+        b._blocks = None
+        if hasattr(b, "_vt"):
+            del b._vt
+
+
 def main():
     ap = argparse.ArgumentParser()
     ap.add_argument("--mode", default="all")
     ap.add_argument("--seed", type=int, default=int(os.environ.get("VERIF_SEED", "1") or 1))
     ap.add_argument("--only", help="property id: evaluate only this property's rules")
     a = ap.parse_args()
-    modes = ["rename", "lines", "blocks", "locals"] if a.mode == "all" else [a.mode]
+    modes = ["rename", "lines", "blocks", "locals", "mirror"] if a.mode == "all" else [a.mode]
     bad = 0
     for mode in modes:
         os.environ["VERIF_NO_RENAME"] = "1" if mode == "rename" else ""
@@ -149,6 +182,8 @@ def main():
             do_blocks(f, random.Random(a.seed))
         elif mode == "locals":
             do_locals(f, random.Random(a.seed))
+        elif mode == "mirror":
+            do_mirror(f)
         for i in range(1, 21):
             pid = "c%02d" % i
             if a.only and a.only.lower() != pid:
